@@ -9,7 +9,6 @@ import (
 	"testing/iotest"
 
 	"github.com/google/gce-tcb-verifier/eventlog"
-	"pgregory.net/rapid"
 
 	"verif/internal/ev"
 )
@@ -18,16 +17,26 @@ import (
 // for large declared sizes must stay strict and exact there as well.
 func TestElLargeSizes(t *testing.T) {
 	const name = "el/large-sizes"
-	ev.Rule(name, "Uint32SizedArray, TCGEventData and a one-event CryptoAgileLog with a declared payload size in {65535, 65536, 65537, 65600, 131072, 200001} and the bytes actually present in {all, all-1, half, 1, 0, all+3}, through bytes.Reader, bytes.Buffer and a one-byte-at-a-time reader; oracle: complete input => decodes to exactly the payload and re-encodes to the same bytes; incomplete input => error (never silently completed or shortened); non-trivial = incomplete input or size > 65536; distinct = (structure, declared size, present class, reader)")
-	checks(ev.Scale(300, 3000))
+	ev.Rule(name, "Uint32SizedArray, TCGEventData and a one-event CryptoAgileLog with a declared payload size in {65535, 65536, 65537, 65600, 131072, 200001} and the bytes actually present in {all, all-1, half, 1, 0, all+3}, through bytes.Reader, bytes.Buffer, a one-byte-at-a-time reader, iotest.HalfReader and iotest.DataErrReader; the grid is enumerated completely; oracle: complete input => decodes to exactly the payload and re-encodes to the same bytes; incomplete input => error (never silently completed or shortened); non-trivial = incomplete input or size > 65536; distinct = (structure, declared size, present class, reader)")
 	sizes := []int{65535, 65536, 65537, 65600, 131072, 200001}
-	rapid.Check(t, func(t *rapid.T) {
-		n := rapid.SampledFrom(sizes).Draw(t, "size")
-		presentClass := rapid.SampledFrom([]string{"all", "all-1", "half", "one", "zero", "all+3"}).Draw(t, "present")
-		structure := rapid.SampledFrom([]string{"u32array", "eventdata", "log"}).Draw(t, "structure")
-		reader := rapid.SampledFrom([]string{"bytes.Reader", "bytes.Buffer", "onebyte"}).Draw(t, "reader")
+	type combo struct {
+		n                                int
+		presentClass, structure, reader string
+	}
+	var combos []combo
+	for _, n := range sizes {
+		for _, pc := range []string{"all", "all-1", "half", "one", "zero", "all+3"} {
+			for _, st := range []string{"u32array", "eventdata", "log"} {
+				for _, rd := range []string{"bytes.Reader", "bytes.Buffer", "onebyte", "half", "dataerr"} {
+					combos = append(combos, combo{n, pc, st, rd})
+				}
+			}
+		}
+	}
+	for ci, cb := range combos {
+		n, presentClass, structure, reader := cb.n, cb.presentClass, cb.structure, cb.reader
 		payload := make([]byte, n)
-		seed := rapid.Uint32().Draw(t, "seed")
+		seed := uint32(ci)*2654435761 + 12345
 		for i := range payload {
 			seed = seed*1664525 + 1013904223
 			payload[i] = byte(seed >> 24)
@@ -60,6 +69,10 @@ func TestElLargeSizes(t *testing.T) {
 			r = bytes.NewReader(input)
 		case "bytes.Buffer":
 			r = bytes.NewBuffer(input)
+		case "half":
+			r = iotest.HalfReader(bytes.NewReader(input))
+		case "dataerr":
+			r = iotest.DataErrReader(bytes.NewReader(input))
 		default:
 			r = iotest.OneByteReader(bytes.NewReader(input))
 		}
@@ -101,27 +114,29 @@ func TestElLargeSizes(t *testing.T) {
 		desc := fmt.Sprintf("%s declared %d present %s (%d bytes) via %s", structure, n, presentClass, present, reader)
 		if pan != nil {
 			ev.Note("panic on %s (totality is C07's subject): %v", desc, pan)
-			return
+			ev.Class(name, "inconclusive/panic")
+			continue
 		}
 		complete := present == n
 		switch {
 		case complete && err != nil:
 			ev.Violation(t, "C18/valid-bytes-rejected/"+name, "%s: complete input rejected: %v", desc, err)
-			return
+			continue
 		case complete && !bytes.Equal(got, payload):
 			ev.Violation(t, "C18/decode-differs/"+name, "%s: decoded %d bytes, payload has %d (first difference at %d)", desc, len(got), n, firstDiff(got, payload))
-			return
+			continue
 		case complete && !bytes.Equal(reenc.Bytes(), input[:len(prefix)+n]):
 			ev.Violation(t, "C18/accepted-bytes-not-reencodable/"+name, "%s: re-encoding has %d bytes, input %d", desc, reenc.Len(), len(prefix)+n)
-			return
+			continue
 		case !complete && err == nil:
 			ev.Violation(t, "C18/truncated-large-array-accepted", "%s: accepted although only %d of %d declared bytes are present (decoded %d bytes, re-encodes to %d bytes)", desc, present, n, len(got), reenc.Len())
-			return
+			continue
 		}
 		ev.Case(name, !complete || n > 65536, fmt.Sprintf("%s|%d|%s|%s", structure, n, presentClass, reader), structure+"/"+presentClass, func() any {
 			return map[string]any{"structure": structure, "declared": n, "present": present, "reader": reader, "accepted": err == nil}
 		})
-	})
+	}
+	ev.Exhaustive(name)
 }
 
 func firstDiff(a, b []byte) int {
